@@ -47,7 +47,9 @@ func init() { gens["C20"] = genC20 }
 
 // ---------- fault-injecting file store ----------
 // Like a local disk: a created file exists (as partial) until it is closed
-// (complete) or closed with an error (removed). A failing Close stores nothing.
+// (complete) or closed with an error (removed). A failing Close removes
+// nothing: the unfinished file stays in the store until CloseWithError is
+// called (storage/fs/local behaves so: Close is os.File.Close).
 
 type ffsFile struct {
 	content  []byte
@@ -139,17 +141,19 @@ func (w *ffsWriter) Close() error {
 	w.done = true
 	w.fs.open--
 	if err := w.fs.step(); err != nil {
-		delete(w.fs.files, w.name)
+		// The store reports a failed Close and does nothing else: what was
+		// written stays where it is (in memory as an unfinished file; on disk
+		// the file is closed, all its bytes are there) until the SERVER has
+		// it removed. fs.Writer states no contract for a failing Close, and
+		// storage/fs/local's Close is a plain os.File.Close that removes nothing.
 		if w.inner != nil {
-			// a failing Close stores nothing (contract of fs.Writer)
-			w.inner.CloseWithError(err)
+			w.inner.Close()
 		}
 		return err
 	}
 	if w.inner != nil {
 		if err := w.inner.Close(); err != nil {
-			delete(w.fs.files, w.name)
-			return err
+			return err // a real close error: the file stays on disk, not complete
 		}
 	}
 	w.fs.files[w.name].complete = true
@@ -336,6 +340,11 @@ func (t *fsqlTx) Rollback() error { return t.tx.Rollback() }
 
 // c20OpenDB opens the storage DB on sqlite through the fault connector.
 func c20OpenDB(dsn string, maxConns int) (*db.DB, *faultSQL, error) {
+	d, f, _, err := c20OpenDB2(dsn, maxConns)
+	return d, f, err
+}
+
+func c20OpenDB2(dsn string, maxConns int) (*db.DB, *faultSQL, *sql.DB, error) {
 	f := newFaultSQL(dsn)
 	sdb := sql.OpenDB(f)
 	if maxConns > 0 {
@@ -343,20 +352,25 @@ func c20OpenDB(dsn string, maxConns int) (*db.DB, *faultSQL, error) {
 	}
 	d, err := db.VerifOpenWithDB(sdb, "sqlite3")
 	if err != nil {
-		return nil, nil, err
+		return nil, nil, nil, err
 	}
-	return d, f, nil
+	return d, f, sdb, nil
 }
 
 // ---------- in-process server ----------
 
 type c20Server struct {
 	db   *db.DB
+	sdb  *sql.DB // the same database, to read the Uploads table (every ID ever handed out)
 	sql  *faultSQL
 	fs   *faultFS
 	mux  *http.ServeMux
 	cl   *storage.Client
 	user string
+	seen    []string
+	seenSet map[string]bool
+	// light: leave out the extra searches that return nearly every record (big uploads)
+	light bool
 }
 
 type inprocTransport struct{ h http.Handler }
@@ -376,11 +390,11 @@ var c20DiskSeq int
 // fresh directory under $VERIF_WORK.
 func c20NewServer(user, store string) (*c20Server, error) {
 	// one connection: an in-memory sqlite database lives in its connection
-	d, fsql, err := c20OpenDB(":memory:", 1)
+	d, fsql, sdb, err := c20OpenDB2(":memory:", 1)
 	if err != nil {
 		return nil, err
 	}
-	s := &c20Server{db: d, sql: fsql, fs: newFaultFS(-1), user: user}
+	s := &c20Server{db: d, sdb: sdb, sql: fsql, fs: newFaultFS(-1), user: user}
 	if store == "disk" {
 		dir := os.Getenv("VERIF_WORK")
 		if dir == "" {
@@ -428,6 +442,10 @@ type c20Part struct {
 type c20Req struct {
 	User  string    `json:"user"`
 	Parts []c20Part `json:"parts"`
+	// only for the earlier uploads of a history (Pre): the single fault that
+	// upload met (nil: none), so that the history contains failed and aborted
+	// uploads made through the same HTTP path
+	Fault *c20Fault `json:"fault,omitempty"`
 }
 
 const c20Boundary = "verifBOUNDARYverifBOUNDARYverif"
@@ -524,32 +542,169 @@ func c20Oracle(full []byte, cut int, drop bool) ([]c20Item, int) {
 
 // ---------- observations ----------
 
-func (s *c20Server) observe(ok bool, id string) (hx.Sx, error) {
-	q := s.cl.Query(context.Background(), "upload>")
+// The queries and listings made after every step besides "upload>" and the
+// plain /uploads. They do not depend on the upload under test; the ones that
+// name it (upload:<id>) are added for every ID the Uploads table gained.
+var c20Searches = []string{"by:user", "upload-file:a.txt", "goos:linux", "k>a upload-part>"}
+
+type c20ListQ struct {
+	q     string
+	extra []string
+	limit int
+}
+
+var c20ListQs = []c20ListQ{{"by:user", nil, 0}, {"", []string{"by", "upload-file"}, 0}, {"upload-file:a.txt", []string{"upload-file"}, 5}}
+
+func (s *c20Server) search(qs string) ([]hx.Sx, error) {
+	q := s.cl.Query(context.Background(), qs)
 	var sr []hx.Sx
 	for q.Next() {
 		r := q.Result()
 		sr = append(sr, hx.L(hx.S(r.Labels["upload"]), hx.S(r.Content)))
 	}
 	if err := q.Err(); err != nil {
-		return hx.Sx{}, fmt.Errorf("/search: %v", err)
+		return nil, fmt.Errorf("/search %q: %v", qs, err)
 	}
 	q.Close()
-	ul := s.cl.ListUploads(context.Background(), "", nil, 0)
+	return sr, nil
+}
+
+// listing rows: (id, count) for the plain one; (id, "count|k=v;...") otherwise
+func (s *c20Server) listing(l c20ListQ, plain bool) ([]hx.Sx, error) {
+	ul := s.cl.ListUploads(context.Background(), l.q, l.extra, l.limit)
 	var li []hx.Sx
 	for ul.Next() {
 		i := ul.Info()
-		li = append(li, hx.L(hx.S(i.UploadID), hx.I(i.Count)))
+		if plain {
+			li = append(li, hx.L(hx.S(i.UploadID), hx.I(i.Count)))
+			continue
+		}
+		var ks []string
+		for k := range i.LabelValues {
+			ks = append(ks, k)
+		}
+		sort.Strings(ks)
+		d := fmt.Sprint(i.Count) + "|"
+		for _, k := range ks {
+			d += k + "=" + i.LabelValues[k] + ";"
+		}
+		li = append(li, hx.L(hx.S(i.UploadID), hx.S(d)))
 	}
 	if err := ul.Err(); err != nil {
-		return hx.Sx{}, fmt.Errorf("/uploads: %v", err)
+		return nil, fmt.Errorf("/uploads %+v: %v", l, err)
 	}
 	ul.Close()
+	return li, nil
+}
+
+// usedIDs: every upload ID seen in use on this server so far, whether its
+// upload was committed or not: the rows of the Uploads table and the
+// uploads/<id>/ directories of the file store, as found now and at every
+// earlier call (it is called after every step of a history, so an ID whose
+// row or files vanish later stays in the list).
+func (s *c20Server) usedIDs() ([]string, error) {
+	rows, err := s.sdb.Query("SELECT UploadID FROM Uploads ORDER BY rowid")
+	if err != nil {
+		return nil, err
+	}
+	defer rows.Close()
+	note := func(id string) {
+		if s.seenSet == nil {
+			s.seenSet = map[string]bool{}
+		}
+		if !s.seenSet[id] {
+			s.seenSet[id] = true
+			s.seen = append(s.seen, id)
+		}
+	}
+	for rows.Next() {
+		var id string
+		if err := rows.Scan(&id); err != nil {
+			return nil, err
+		}
+		note(id)
+	}
+	if err := rows.Err(); err != nil {
+		return nil, err
+	}
+	for _, f := range s.fs.snapshot() {
+		if rest, ok := strings.CutPrefix(f.name, "uploads/"); ok {
+			if i := strings.Index(rest, "/"); i > 0 {
+				note(rest[:i])
+			}
+		}
+	}
+	return append([]string(nil), s.seen...), nil
+}
+
+func c20NewIDs(before, after []string) []string {
+	m := map[string]bool{}
+	for _, x := range before {
+		m[x] = true
+	}
+	var out []string
+	for _, x := range after {
+		if !m[x] {
+			out = append(out, x)
+		}
+	}
+	return out
+}
+
+// observe: status, ID, /search upload>, /uploads, the file store, and the
+// further queries and listings: (kind name rows) with kind 0 a search that
+// does not name the upload under test, 1 such a listing, 4 the plain listing
+// limited to one row, 2 / 3 the search / listing for upload:<id> of every id
+// in newIDs (the IDs the Uploads table gained by the step, or the answered ID).
+func (s *c20Server) observe(ok bool, id string, newIDs []string) (hx.Sx, error) {
+	sr, err := s.search("upload>")
+	if err != nil {
+		return hx.Sx{}, err
+	}
+	li, err := s.listing(c20ListQ{}, true)
+	if err != nil {
+		return hx.Sx{}, err
+	}
 	var fl []hx.Sx
 	for _, f := range s.fs.snapshot() {
 		fl = append(fl, hx.L(hx.S(f.name), hx.B(f.content), hx.Bool(f.complete)))
 	}
-	return hx.L(hx.Bool(ok), hx.S(id), hx.List(sr), hx.List(li), hx.List(fl)), nil
+	var more []hx.Sx
+	searches := c20Searches
+	if s.light {
+		searches = searches[1:] // not the ones that return (nearly) everything
+	}
+	for _, q := range searches {
+		rows, err := s.search(q)
+		if err != nil {
+			return hx.Sx{}, err
+		}
+		more = append(more, hx.L(hx.I(0), hx.S("S:"+q), hx.List(rows)))
+	}
+	for _, l := range c20ListQs {
+		rows, err := s.listing(l, false)
+		if err != nil {
+			return hx.Sx{}, err
+		}
+		more = append(more, hx.L(hx.I(1), hx.S(fmt.Sprintf("L:%s;%v;%d", l.q, l.extra, l.limit)), hx.List(rows)))
+	}
+	rows, err := s.listing(c20ListQ{limit: 1}, false)
+	if err != nil {
+		return hx.Sx{}, err
+	}
+	more = append(more, hx.L(hx.I(4), hx.S("L:limit=1"), hx.List(rows)))
+	for _, nid := range newIDs {
+		rows, err := s.search("upload:" + nid)
+		if err != nil {
+			return hx.Sx{}, err
+		}
+		more = append(more, hx.L(hx.I(2), hx.S("S:upload:"+nid), hx.List(rows)))
+		if rows, err = s.listing(c20ListQ{q: "upload:" + nid, extra: []string{"by"}}, false); err != nil {
+			return hx.Sx{}, err
+		}
+		more = append(more, hx.L(hx.I(3), hx.S("L:upload:"+nid), hx.List(rows)))
+	}
+	return hx.L(hx.Bool(ok), hx.S(id), hx.List(sr), hx.List(li), hx.List(fl), hx.List(more)), nil
 }
 
 // idAndTime finds the ID and upload-time of the upload that wrote new files.
@@ -648,13 +803,14 @@ func c20CutClass(full []byte, cut int) (class string, before int) {
 // ---------- one fault run ----------
 
 type c20Fault struct {
-	Kind string `json:"kind"` // none | fs | cut | drop | abort
+	Kind string `json:"kind"` // none | fs | sql | cut | drop | abort | content (only in a history: the request itself is faulty)
 	N    int    `json:"n"`    // fs operation index / cut offset / files before Abort
 }
 
 type c20Input struct {
 	Kind  string   `json:"kind"`
 	Store string   `json:"store,omitempty"` // "" in-memory file store, "disk" storage/fs/local
+	Light bool     `json:"light,omitempty"` // leave out the extra searches that return nearly everything (big uploads)
 	Pre   []c20Req `json:"pre"`
 	Req   c20Req   `json:"req"`
 	Fault c20Fault `json:"fault"`
@@ -695,31 +851,161 @@ func c20ItemsSx(items []c20Item, user string, writes map[int]int) hx.Sx {
 	return hx.List(it)
 }
 
-// setup builds a fresh server and replays the earlier (fault-free) uploads.
+// what one request did: the answer, the part sequence the library sees, and
+// which step of the model's oracle the injected fault is
+type c20Done struct {
+	ok       bool
+	id       string // as answered (200 only)
+	items    []c20Item
+	end      int
+	fsFault  int
+	sqlClass int
+	sqlPart  int
+}
+
+// exec runs one upload request through the server's HTTP handler (or, for
+// "abort", through the real client) with the single fault f injected.
+func (s *c20Server) exec(rq c20Req, f c20Fault, sqlKinds []string, sqlDuring []int) (c20Done, error) {
+	d := c20Done{fsFault: -1}
+	s.user = rq.User
+	full := c20Encode(rq.Parts)
+	cut, drop := len(full), false
+	switch f.Kind {
+	case "fs":
+		d.fsFault = f.N
+		s.fs.failAt = s.fs.ops + f.N
+	case "sql":
+		var err error
+		if d.sqlClass, d.sqlPart, err = c20SQLClass(sqlKinds, sqlDuring, f.N); err != nil {
+			return d, err
+		}
+		s.sql.failAt = s.sql.ops + f.N
+	case "cut":
+		cut = f.N
+	case "drop":
+		cut, drop = f.N, true
+	}
+	if f.Kind == "abort" {
+		// the real client: N files, then Abort instead of Commit
+		up := s.cl.NewUpload(context.Background())
+		k := 0
+		for _, p := range rq.Parts {
+			if p.Kind != "file" || k == f.N {
+				continue
+			}
+			w, err := up.CreateFile(p.Name)
+			if err != nil {
+				break
+			}
+			io.WriteString(w, p.Body)
+			d.items = append(d.items, c20Item{kind: 0, name: p.Name, body: []byte(p.Body)})
+			k++
+		}
+		up.Abort()
+		d.items = append(d.items, c20Item{kind: 2, field: "abort"})
+		d.end = 1
+	} else {
+		d.ok, d.id = s.post(c20BodyReader(full, cut, drop))
+		d.items, d.end = c20Oracle(full, cut, drop)
+	}
+	s.fs.failAt = -1
+	s.sql.failAt = -1
+	return d, nil
+}
+
+// setup builds a fresh server and replays the history of earlier uploads,
+// each through the HTTP path with the single fault it carries (none: it must
+// succeed). Per earlier upload the model gets the part sequence, the fault and
+// the ID the Uploads table gained (also when the upload failed).
 func c20Setup(pre []c20Req, store string) (*c20Server, []hx.Sx, error) {
 	s, err := c20NewServer("", store)
 	if err != nil {
 		return nil, nil, err
 	}
 	var presx []hx.Sx
-	for _, p := range pre {
-		s.user = p.User
-		before := s.fileSet()
-		full := c20Encode(p.Parts)
-		ok, id := s.post(bytes.NewReader(full))
-		if !ok {
+	for i, p := range pre {
+		f := c20Fault{Kind: "none"}
+		if p.Fault != nil {
+			f = *p.Fault
+		}
+		var writes map[int]int
+		var kinds []string
+		var during []int
+		if f.Kind == "fs" || f.Kind == "sql" {
+			dr, err := c20DryCached(c20Input{Store: store, Pre: pre[:i], Req: p})
+			if err != nil {
+				s.Close()
+				return nil, nil, err
+			}
+			writes, kinds, during = dr.writes, dr.kinds, dr.during
+		}
+		used0, err := s.usedIDs()
+		if err != nil {
 			s.Close()
-			return nil, nil, fmt.Errorf("earlier upload refused")
+			return nil, nil, err
+		}
+		before := s.fileSet()
+		d, err := s.exec(p, f, kinds, during)
+		if err != nil {
+			s.Close()
+			return nil, nil, err
+		}
+		if f.Kind == "none" && !d.ok {
+			s.Close()
+			return nil, nil, fmt.Errorf("earlier fault-free upload refused")
+		}
+		used1, err := s.usedIDs()
+		if err != nil {
+			s.Close()
+			return nil, nil, err
+		}
+		id := d.id
+		if nw := c20NewIDs(used0, used1); id == "" && len(nw) > 0 {
+			id = nw[0]
 		}
 		_, tm := s.idAndTime(before)
-		items, e := c20Oracle(full, len(full), false)
-		presx = append(presx, hx.L(hx.L(hx.S(id)), hx.S(tm), hx.S(p.User), c20ItemsSx(items, p.User, s.writesOf(id)), hx.I(e)))
+		if f.Kind == "none" {
+			writes = s.writesOf(id)
+		} else if f.Kind != "fs" {
+			writes = nil
+		}
+		presx = append(presx, hx.L(
+			hx.L(hx.Opt(id != "", hx.S(id)), hx.S(tm), hx.S(p.User), c20ItemsSx(d.items, p.User, writes), hx.I(d.end)),
+			hx.I(d.fsFault), hx.I(d.sqlClass), hx.I(d.sqlPart), hx.Bool(d.ok)))
 	}
 	return s, presx, nil
 }
 
 // dryRun: fault-free run of the request on an identical server: number of
 // file-store operations and writes per file.
+type c20Dry struct {
+	ops    int
+	writes map[int]int
+	kinds  []string
+	during []int
+}
+
+var c20DryCache = map[string]c20Dry{}
+
+func c20DryCached(in c20Input) (c20Dry, error) {
+	in.Req.Fault = nil
+	in.Fault = c20Fault{}
+	kb, _ := json.Marshal(in)
+	if d, ok := c20DryCache[string(kb)]; ok {
+		return d, nil
+	}
+	ops, writes, kinds, during, err := c20DryRun(in)
+	if err != nil {
+		return c20Dry{}, err
+	}
+	d := c20Dry{ops, writes, kinds, during}
+	if len(c20DryCache) > 4096 {
+		c20DryCache = map[string]c20Dry{}
+	}
+	c20DryCache[string(kb)] = d
+	return d, nil
+}
+
 func c20DryRun(in c20Input) (ops int, writes map[int]int, sqlKinds []string, sqlDuring []int, err error) {
 	s, _, err := c20Setup(in.Pre, in.Store)
 	if err != nil {
@@ -733,11 +1019,12 @@ func c20DryRun(in c20Input) (ops int, writes map[int]int, sqlKinds []string, sql
 	sql0 := s.sql.ops
 	full := c20Encode(in.Req.Parts)
 	_, id := s.post(bytes.NewReader(full))
+	sql1 := s.sql.ops
 	if id == "" {
 		id, _ = s.idAndTime(before)
 	}
-	sqlKinds = append(sqlKinds, s.sql.kinds[sql0:s.sql.ops]...)
-	for _, d := range s.sql.during[sql0:s.sql.ops] {
+	sqlKinds = append(sqlKinds, s.sql.kinds[sql0:sql1]...)
+	for _, d := range s.sql.during[sql0:sql1] {
 		if d >= 0 {
 			d -= creates0 + 1 // index of the part being written
 		}
@@ -781,70 +1068,56 @@ func c20Run(o *hx.Out, in c20Input, writes map[int]int, sqlKinds []string, sqlDu
 		return err
 	}
 	defer s.Close()
+	s.light = in.Light
 	s.user = in.Req.User
-	beforeObs, err := s.observe(true, "")
+	used0, err := s.usedIDs()
+	if err != nil {
+		return err
+	}
+	beforeObs, err := s.observe(true, "", nil)
 	if err != nil {
 		return err
 	}
 	beforeFiles := s.fileSet()
 	full := c20Encode(in.Req.Parts)
-	cut, drop := len(full), false
-	fsFault := -1
-	sqlClass, sqlPart := 0, 0
-	var ok bool
-	var id string
-	var items []c20Item
-	var end int
-	switch in.Fault.Kind {
-	case "fs":
-		fsFault = in.Fault.N
-		s.fs.failAt = s.fs.ops + in.Fault.N
-	case "sql":
-		var err error
-		if sqlClass, sqlPart, err = c20SQLClass(sqlKinds, sqlDuring, in.Fault.N); err != nil {
-			return err
-		}
-		s.sql.failAt = s.sql.ops + in.Fault.N
-	case "cut":
+	cut := len(full)
+	if in.Fault.Kind == "cut" || in.Fault.Kind == "drop" {
 		cut = in.Fault.N
-	case "drop":
-		cut, drop = in.Fault.N, true
 	}
-	if in.Fault.Kind == "abort" {
-		// the real client: N files, then Abort instead of Commit
-		up := s.cl.NewUpload(context.Background())
-		k := 0
-		for _, p := range in.Req.Parts {
-			if p.Kind != "file" || k == in.Fault.N {
-				continue
-			}
-			w, err := up.CreateFile(p.Name)
-			if err != nil {
-				break
-			}
-			io.WriteString(w, p.Body)
-			items = append(items, c20Item{kind: 0, name: p.Name, body: []byte(p.Body)})
-			k++
-		}
-		up.Abort()
-		items = append(items, c20Item{kind: 2, field: "abort"})
-		end = 1
-	} else {
-		ok, id = s.post(c20BodyReader(full, cut, drop))
-		items, end = c20Oracle(full, cut, drop)
-	}
-	s.fs.failAt = -1
-	s.sql.failAt = -1
-	fid, tm := s.idAndTime(beforeFiles)
-	if id == "" {
-		id = fid
-	}
-	afterObs, err := s.observe(ok, id)
+	d, err := s.exec(in.Req, in.Fault, sqlKinds, sqlDuring)
 	if err != nil {
 		return err
 	}
+	ok, id, items, end := d.ok, d.id, d.items, d.end
+	used1, err := s.usedIDs()
+	if err != nil {
+		return err
+	}
+	newIDs := c20NewIDs(used0, used1)
+	fid, tm := s.idAndTime(beforeFiles)
+	if id == "" && len(newIDs) > 0 {
+		id = newIDs[0]
+	}
+	if id == "" {
+		id = fid
+	}
+	if ok && len(newIDs) == 0 {
+		newIDs = []string{d.id} // an answered ID that is no new row: the queries for it are made all the same
+	}
+	afterObs, err := s.observe(ok, id, newIDs)
+	if err != nil {
+		return err
+	}
+	for _, p := range in.Pre {
+		k := "none"
+		if p.Fault != nil {
+			k = p.Fault.Kind
+		}
+		o.Count("upload.history-step=" + k)
+	}
 	rq := hx.L(hx.Opt(id != "", hx.S(id)), hx.S(tm), hx.S(in.Req.User), c20ItemsSx(items, in.Req.User, writes), hx.I(end))
-	c := hx.L(hx.I(0), hx.List(presx), rq, hx.I(fsFault), hx.I(sqlClass), hx.I(sqlPart), beforeObs, afterObs)
+	c := hx.L(hx.I(0), hx.List(presx), rq, hx.I(d.fsFault), hx.I(d.sqlClass), hx.I(d.sqlPart),
+		hx.SList(used0), hx.SList(used1), beforeObs, afterObs)
 	var tags []string
 	nfilesDone := 0
 	for _, x := range items {
@@ -934,8 +1207,9 @@ var c20NoBenchBodies = []string{"", "k: v\n", "no benchmark here\n", "BenchmarkN
 func c20Mixed(o *hx.Out, r *hx.Rng, store string, allBodies bool) error {
 	for nfiles := 2; nfiles <= 4; nfiles++ {
 		in := c20Input{Kind: "upload", Store: store, Fault: c20Fault{"none", 0}}
-		for j := r.Intn(2); j > 0; j-- {
-			in.Pre = append(in.Pre, c20GenReq(r, r.Range(1, 2)))
+		var err error
+		if in.Pre, err = c20GenHistory(r, r.Intn(3), store); err != nil {
+			return err
 		}
 		good := c20GenReq(r, nfiles)
 		var variants [][]int // positions without benchmark lines
@@ -997,6 +1271,53 @@ func c20GenReq(r *hx.Rng, nfiles int) c20Req {
 	return rq
 }
 
+// c20GenHistory: n earlier uploads made one after the other on the same
+// server; about half of them meet a single fault (any kind the request under
+// test can meet: a file-store or database operation failing, the body cut or
+// the connection dropped, the client's Abort, an unexpected field, a file
+// without benchmark lines, rows the database refuses) and so fail, leaving a
+// used ID, possibly orphan files, and nothing to query.
+func c20GenHistory(r *hx.Rng, n int, store string) ([]c20Req, error) {
+	var pre []c20Req
+	for len(pre) < n {
+		rq := c20GenReq(r, r.Range(1, 2))
+		nfiles := len(rq.Parts) - 1
+		if r.Chance(0.5) {
+			pre = append(pre, rq)
+			continue
+		}
+		switch kind := r.Pick([]string{"fs", "sql", "cut", "drop", "abort", "field", "nobench", "refused"}); kind {
+		case "fs", "sql":
+			dr, err := c20DryCached(c20Input{Store: store, Pre: pre, Req: rq})
+			if err != nil {
+				return nil, err
+			}
+			if kind == "fs" {
+				rq.Fault = &c20Fault{"fs", r.Intn(dr.ops)}
+			} else {
+				rq.Fault = &c20Fault{"sql", r.Intn(len(dr.kinds))}
+			}
+		case "cut", "drop":
+			rq.Fault = &c20Fault{kind, r.Intn(len(c20Encode(rq.Parts)))}
+		case "abort":
+			rq.Fault = &c20Fault{"abort", r.Range(0, nfiles)}
+		case "field":
+			j := r.Range(0, nfiles)
+			rq.Parts = append(append(append([]c20Part{}, rq.Parts[:j]...), c20Part{Kind: "field", Name: r.Pick([]string{"abort", "other"}), Body: "1"}), rq.Parts[j:]...)
+			rq.Fault = &c20Fault{"content", 0}
+		case "nobench":
+			rq.Parts[r.Intn(nfiles)].Body = r.Pick(c20NoBenchBodies)
+			rq.Fault = &c20Fault{"content", 0}
+		default:
+			j := r.Intn(nfiles)
+			rq.Parts[j].Body = "name: x\n" + rq.Parts[j].Body
+			rq.Fault = &c20Fault{"content", 0}
+		}
+		pre = append(pre, rq)
+	}
+	return pre, nil
+}
+
 type c20ScenOpts struct {
 	store    string // "" | "disk"
 	minFiles int
@@ -1004,8 +1325,9 @@ type c20ScenOpts struct {
 
 func c20Scenario(o *hx.Out, r *hx.Rng, allCuts bool, cutStride int, big bool, op c20ScenOpts) error {
 	in := c20Input{Kind: "upload", Store: op.store}
-	for j := r.Intn(3); j > 0; j-- {
-		in.Pre = append(in.Pre, c20GenReq(r, r.Range(1, 2)))
+	var err error
+	if in.Pre, err = c20GenHistory(r, r.Intn(4), op.store); err != nil {
+		return err
 	}
 	nfiles := r.Range(max(1, op.minFiles), 3)
 	in.Req = c20GenReq(r, nfiles)
@@ -1213,7 +1535,7 @@ func c20IDs(o *hx.Out, nseq, ngo, each int, txlock string, failEvery int) error 
 
 func genC20(o *hx.Out, r *hx.Rng, tier string, replay string) error {
 	log.SetOutput(io.Discard)
-	o.Rule = "per scenario (0-2 earlier uploads, a request of 1-3 files + commit field): the fault-free run; every file-store operation index failing in turn (create / each header write / separator / body writes / close, plus one index beyond); every database operation index failing in turn (NewUpload's begin/read/insert/commit, begin of the records transaction, each flush INSERT incl. the 990-argument boundary in the big scenarios, final commit, plus one beyond); an unexpected field and a client Abort (storage.Client) at every position; each file in turn without benchmark lines, and with a label the database refuses; a request without files; the multipart body cut at byte offsets both with intact HTTP framing and as a dropped connection (every offset in the designated scenarios; in every scenario the offsets inside each delimiter line: after CR, CRLF, the dashes, half the boundary, the complete \\r\\n--BOUNDARY, and one byte further). The same enumeration on the local-disk file store (storage/fs/local over a fresh directory; write faults as short writes; the directory is walked afterwards, every name counts). Uploads of 2-4 files with one (every position, every kind of benchmark-free content) or two files without benchmark lines, on both stores. Big uploads: a first file of 600-2000 records with pairwise distinct labels (more than 16 flushes of the database layer's 990-argument buffer inside the one records transaction), alone or followed by a small file, and then one failing step each: a later file without benchmark lines, a later file whose rows the database refuses, an abort field, an unexpected field, the client's Abort, the body cut / the connection dropped late in the big file, in the later file and in the closing delimiter, a file-store fault in the last operations and late in the big file, a database fault at a flush beyond the 16th batch, at the last flush, at the flush of Commit and at the commit; plus the intact request. After each run /search (upload>), /uploads and the file store are recorded. Plus DB.NewUpload 40 times sequentially and from 16 goroutines on one file-backed sqlite database (deferred and immediate transactions), and again with every 11th / 7th database operation failing. ID histories (tagged clock hook db.VerifSetNow): 5-12 steps of NewUpload at chosen clock readings on three consecutive UTC days (shown in several time zones, around midnight, over month/year/leap-day boundaries) where the reading is on an EARLIER day than the newest upload - the earlier day without uploads, with upload .1, with several (patterns: step back over midnight, two front ends one day apart taking turns, the earlier day has uploads before the later day starts, explicit IDs out of order via ReplaceUpload of an absent ID: same day with a lower counter / an older day, random) - each upload inserting 0-3 records and committed or aborted; after every step the result and the listing of all uploads; and 8 goroutines allocating on one database while the clock alternates between two days that both have uploads. non-trivial = every case"
+	o.Rule = "per scenario (a history of 0-3 earlier uploads made through the same HTTP path, about half of them meeting one fault - a file-store or database operation failing, the body cut, the connection dropped, the client's Abort, an unexpected field, a file without benchmark lines, refused rows - and so failing; then a request of 1-3 files + commit field): the fault-free run; every file-store operation index failing in turn (create / each header write / separator / body writes / close, plus one index beyond); every database operation index failing in turn (NewUpload's begin/read/insert/commit, begin of the records transaction, each flush INSERT incl. the 990-argument boundary in the big scenarios, final commit, plus one beyond); an unexpected field and a client Abort (storage.Client) at every position; each file in turn without benchmark lines, and with a label the database refuses; a request without files; the multipart body cut at byte offsets both with intact HTTP framing and as a dropped connection (every offset in the designated scenarios; in every scenario the offsets inside each delimiter line: after CR, CRLF, the dashes, half the boundary, the complete \\r\\n--BOUNDARY, and one byte further). The same enumeration on the local-disk file store (storage/fs/local over a fresh directory; write faults as short writes; the directory is walked afterwards, every name counts). Uploads of 2-4 files with one (every position, every kind of benchmark-free content) or two files without benchmark lines, on both stores. Big uploads: a first file of 600-2000 records with pairwise distinct labels (more than 16 flushes of the database layer's 990-argument buffer inside the one records transaction), alone or followed by a small file, and then one failing step each: a later file without benchmark lines, a later file whose rows the database refuses, an abort field, an unexpected field, the client's Abort, the body cut / the connection dropped late in the big file, in the later file and in the closing delimiter, a file-store fault in the last operations and late in the big file, a database fault at a flush beyond the 16th batch, at the last flush, at the flush of Commit and at the commit; plus the intact request. Before and after each run are recorded: /search upload> and four label queries, /uploads plain, with a query, with extra_label, with a limit, the search and the listing for upload:<id> of every ID the run is seen to use, the file store, and every ID ever seen in use (rows of the Uploads table, uploads/<id>/ directories, noted after every step of the history). An injected Close fault only makes Close return an error; the file stays in the store until the server has it removed. Plus DB.NewUpload 40 times sequentially and from 16 goroutines on one file-backed sqlite database (deferred and immediate transactions), and again with every 11th / 7th database operation failing. ID histories (tagged clock hook db.VerifSetNow): 5-12 steps of NewUpload at chosen clock readings on three consecutive UTC days (shown in several time zones, around midnight, over month/year/leap-day boundaries) where the reading is on an EARLIER day than the newest upload - the earlier day without uploads, with upload .1, with several (patterns: step back over midnight, two front ends one day apart taking turns, the earlier day has uploads before the later day starts, explicit IDs out of order via ReplaceUpload of an absent ID: same day with a lower counter / an older day, random) - each upload inserting 0-3 records and committed or aborted; after every step the result and the listing of all uploads; and 8 goroutines allocating on one database while the clock alternates between two days that both have uploads. non-trivial = every case"
 	nscen, nall, nbig, ndisk, nmixed := 6, 2, 1, 2, 1
 	each := 50
 	if tier == "thorough" {
